@@ -22,18 +22,22 @@ def run(res):
         if se == 0 and pad != "0":
             continue
         envs.append((se, pad, scr))
+    # the three planes have INDEPENDENT strides in the API: luma / Cb / Cr extras that all differ
+    for se in ("32:8:40", "0:24:2", "6:0:16"):
+        for pad, scr in (("rand", 1), ("255", 0)):
+            envs.append((se, pad, scr))
     groups = []
     for content, w, h, bits, n in CONFIGS + ([] if res.tier == "quick" else CONFIGS_THOROUGH):
         base = ["-n", str(n), "-w", str(w), "-h", str(h), "--bits", str(bits), "--content", content]
         cs = []
-        for se, pad, scr in (envs if res.tier == "thorough" or (w, h) == (64, 64) else envs[::3]):
+        for se, pad, scr in (envs if res.tier == "thorough" or (w, h) == (64, 64) else envs[::3] + envs[-6:]):
             args = base + ["--stride-extra", str(se), "--pad", pad, "--scribble", str(scr)]
             cs.append({"args": args, "key_args": base, "sets": {"enc_mode": 8, "logical_processors": 2, "recon_enabled": 1}, "n": n, "w": w, "h": h, "bits": bits})
         groups.append((obsfam.key_of(cs[0]), cs))
 
     def known(r, kind):
         a = r["case"]["args"]
-        return {"kind": kind, "stride_extra": int(a[a.index("--stride-extra") + 1]), "bits": r["case"]["bits"]}
+        return {"kind": kind, "stride_extra": a[a.index("--stride-extra") + 1], "bits": r["case"]["bits"]}
     obsfam.run_groups(res, groups, timeout=90, what="C21 independence of stride / padding / caller buffer reuse", known_key_fn=known)
     if res.tier == "thorough":
         g2 = [(k + "#asan", [dict(c) for c in cs[:8]]) for k, cs in groups[:2]]
